@@ -192,6 +192,20 @@ CLAIMED['C15'] = dict(
     note=NOTE_COMMON + 'Text layout of print_trace/print_vcd is decoded by the harness parser (trusted).',
     technique='Lean 4 proof over translator-regenerated input checks + channel-agreement correspondence on three simulators')
 
+CLAIMED['C17'] = dict(
+    text='Lean theorems over the model of _generate_timing_map: for every dependency order of the nets, each wire\'s '
+         'timing is attained by a register-free path from a source and exceeded by none (longest-path characterisation), '
+         'and is independent of the order used; max_length bounds every wire and is attained; fanout counts net argument '
+         'positions. Correspondence/oracle on generated designs with reconvergent fan-out, registers and memories with '
+         'write->read paths under random integer gate delays (many ties) and the default delays: timing_map and '
+         'max_length against explicit path enumeration and against the Lean model, every critical path sums to max_length '
+         'and is a connected chain from a source, max_freq against its formula for several tech/ffoverhead settings, '
+         'paths(src,dst) against an independent enumeration of simple net paths, distance, fanout. PARTIAL: paths() and '
+         'critical_path() have no Lean model; float delays are only structurally checked.',
+    design='4 C17',
+    note=NOTE_COMMON + 'IEEE-754 arithmetic of the default delay functions is not modelled (integer delays are used for exact comparison).',
+    technique='Lean 4 proof (longest-path characterisation via the consistent-valuation lemma) + brute-force graph enumeration as oracle')
+
 NOT_YET = {}
 
 
